@@ -178,6 +178,23 @@ func MakeTree(r *rand.Rand, root string, features int) (TreeInfo, error) {
 			}
 		}
 	}
+	if r.Intn(4) == 0 {
+		// a backslash is an ordinary character of a file name here; a directory of the name in front
+		// of it exists next to the file
+		d := dirs[r.Intn(len(dirs))]
+		name := filepath.Join(d, "back\\slash.txt")
+		if os.WriteFile(filepath.Join(root, name), []byte("name with a backslash\n"), 0644) == nil {
+			info.Files++
+			info.FilePaths = append(info.FilePaths, name)
+		}
+		if os.MkdirAll(filepath.Join(root, d, "back"), 0755) == nil {
+			if os.WriteFile(filepath.Join(root, d, "back", "slash.txt"), []byte("the look-alike\n"), 0644) == nil {
+				info.Files++
+				info.FilePaths = append(info.FilePaths, filepath.Join(d, "back", "slash.txt"))
+				info.Dirs = append(info.Dirs, filepath.Join(d, "back"))
+			}
+		}
+	}
 	return info, nil
 }
 
